@@ -39,7 +39,7 @@ def run(rep, tier, seed):
     if tier == 'quick':   # a seeded subset of the universe keeps the quick tier around a minute
         import random as _r
         rnd = _r.Random(seed)
-        must = ['txt_alias_new', 'txt_alias_plain', 'set_i1_i9', 'set_ss_st', 'set_ss_st_uni', 'set_ints', 'long_str', 'long_str2', 'long_list', 'deep_dict', 'deep_obj', 'deep_obj_other', 'i1', 'true', 'f1', 'list_i1', 'tuple_i1', 'plain_a1',
+        must = ['txt_alias_new', 'txt_alias_plain', 'set_i1_i9', 'set_ss_st', 'set_ss_st_uni', 'set_ints', 'long_str', 'long_str2', 'very_long_str', 'very_long_str2', 'long_list', 'deep_dict', 'deep_obj', 'deep_obj_other', 'i1', 'true', 'f1', 'list_i1', 'tuple_i1', 'plain_a1',
                                                                    'other_a1', 'dict_a1', 'dict_dict', 'list_dict2']
         rest = [t for t in toks if t not in must]
         rnd.shuffle(rest)
